@@ -35,6 +35,8 @@ def eval_adverb_converge(f, a, op, backend):
         if not isinstance(p, type(q)):
             return False
         if backend.is_number(p):
+            if backend.is_integer(p) and backend.is_integer(q):
+                return p == q  # integers converge only when equal; the tolerance is for reals
             return backend.np.isclose(p,q)
         elif backend.is_array(p):
             return backend.kg_equal(p, q)
